@@ -321,10 +321,11 @@ MANIFEST_TEXT = {
     "C17": {"text": "Two parts. Races: fleet profiles run in the -race build with the scheduler's own hand-off hidden from the detector, so every run is a happens-before race check of the "
                     "interleaving it executed (reports count only if repository code makes one of the conflicting accesses). Deadlocks/wedges: seeded API-level schedules over topics, "
                     "climit and the global storage with real goroutines, quiescence detected from goroutine dumps; a goroutine still blocked after everything was closed, cancelled "
-                    "and released is reported with the states of the goroutines involved. Cancellation: graceful context cancels are generated at arbitrary yields of running instances "
+                    "and released is reported with the states of the goroutines involved; the same schedules also run statement by statement inside utils/climit, utils/topics and snapshot/storage "
+                    "(a scratch copy of the working tree instrumented with a yield before every statement; the tape picks which goroutine moves next). Cancellation: graceful context cancels are generated at arbitrary yields of running instances "
                     "(incl. start-up, under storage faults); Sync must return before its loop has passed 150 further yield points.",
             "note": SIM_NOTE + " The race part covers executed interleavings only; conc-sim uses wall-clock polling of goroutine states outside the fake clock.",
-            "technique": "deterministic simulation in the -race build (scheduler hand-off hidden from the detector) + API-level schedule simulation with goroutine-dump quiescence"},
+            "technique": "deterministic simulation in the -race build (scheduler hand-off hidden from the detector) + API-level and statement-level (go/ast-instrumented scratch copy) schedule simulation of the concurrency primitives with goroutine-dump quiescence"},
     "C15": {"text": "Names travel the real path: a real syncer with an arbitrary raw instance name uploads at simulated instants, an independent parser and ParseName must agree on the "
                     "stored names (round trip, safe alphabet, order = time), a real receiver among foreign and near-miss objects must pick exactly the newest; plus a seeded build/parse sweep "
                     "over 1970-2262.",
